@@ -249,8 +249,8 @@ def gen_history(rng, tier):
     return steps
 
 
-def encode_history(seed, steps, on_pvt=0):
-    w = W().u64(seed).u8(3).u8(2 if on_pvt else 0).u16(len(steps))
+def encode_history(seed, steps, on_pvt=0, no_wait=0):
+    w = W().u64(seed).u8(3).u8((2 if on_pvt else 0) | (4 if no_wait else 0)).u16(len(steps))
     for op, i, k, fl, arg in steps:
         w.u8(op).u8(i).u8(k).u8(fl).u32(arg)
     return w.done()
@@ -358,8 +358,9 @@ def make_jobs(tier, exes):
         jobs.append(("valid", w.done(), chunk, exes))
     for i in range(300 if tier == "quick" else 12000):
         steps = gen_history(rng, tier)
-        # every fourth history registers its events on the pool virtual thread (single worker)
-        jobs.append(("hist", encode_history(rng.u64(), steps, on_pvt=(i % 4 == 3)), steps, exes))
+        # every fourth history registers its events on the pool virtual thread (single worker); every fifth runs with
+        # SIGCHLD ignored, so the exit status of watched children cannot be collected
+        jobs.append(("hist", encode_history(rng.u64(), steps, on_pvt=(i % 4 == 3), no_wait=(i % 5 == 2)), steps, exes))
     return jobs
 
 
